@@ -85,9 +85,9 @@ def step_state(state, op):
         topnodes += 1
         # head marking leaves a head flag on the old root too, so every non-root node still
         # carries one; the new root needs none (no transformation consults the root's flag)
-        split = False
     elif op in ("binarize", "binarize_bare"):
-        split = False          # fresh @ nodes carry no split flags
+        pass                   # fresh @ nodes carry no split flags: raising must tolerate that
+                               # (its documented prerequisite, a previous boyd_split, holds)
     elif op == "collapse_unary_chains":
         collapsed = True
     elif op == "uncollapse_unary_chains":
